@@ -247,6 +247,17 @@ func (c13) Exec(h []Ev) []Ev {
 			gots.ComputeCRC(buf[8 : 8+len(src)/2])
 			gots.ComputeCRC(d)
 			e["earlier_same"] = string(c) == string(first) && string(buf) == string(keepBuf)
+			// the caller edits the buffer it has just had checksummed in place (one bit) and asks again, with no other call in
+			// between; then it restores the bit and asks once more: the answer belongs to the bytes, not to the buffer
+			e["edited"], e["crc_edited"], e["crc_restored"] = B(keep), B(first), B(first)
+			if len(d) > 0 && len(d) <= 1024 {
+				k, bit := GI0(e["ord"])%len(d), byte(1)<<uint(GI0(e["ord"])/7%8)
+				d[k] ^= bit
+				e["edited"] = B(d)
+				e["crc_edited"] = B(gots.ComputeCRC(d))
+				d[k] ^= bit
+				e["crc_restored"] = B(gots.ComputeCRC(d))
+			}
 			// calls on separate strings that overlap in time (eight goroutines, each with its own rotation of the string)
 			if GI0(e["ord"])%7 == 1 && len(src) >= 4 && len(src) <= 2048 {
 				e["par_same"] = parSame(8, 150, func(k int) string {
